@@ -148,9 +148,13 @@ def check_call(out, A, B, ka, kb, sa, sb, tag):
 
 def exhaustive_block(out, n, kinds_a, kinds_b, singles):
     P = all_paulis(n)
+    # second operand in a different order and of a different length, so the
+    # complete table is neither symmetric nor square
+    Q = np.concatenate([P[::-1], P[:3]])
     for ka in kinds_a:
         for kb in kinds_b:
             check_call(out, P, P, ka, kb, 'stack', 'stack', f'exh-n{n}')
+            check_call(out, P, Q, ka, kb, 'stack', 'stack', f'exh-n{n}')
             if not singles:
                 continue
             for i in range(P.shape[0]):
